@@ -157,6 +157,10 @@ def run(index: RepoIndex, rep) -> None:
     box_rule(index, rep, 'C10.R4', ev)
     door_flags(index, rep, 'C10.R5', ev.om)
     # R6: the other transition functions never overwrite a door or a box
+    rep.rule('C10.R7', 'the faced cell is the cell one step ahead of the agent for every '
+             'heading (Agent.front, C18.R5)', floor=4)
+    from .c18 import front_rule
+    front_rule(index, rep, 'C10.R7')
     rep.rule('C10.R6', 'no cell store of pickndrop can land on a Door or a Box (only actuation '
              'affects them)', floor=1)
     from ..dynmodel import FRONT, cell, describe_world
